@@ -103,3 +103,169 @@ PINS = [
     P("pin_sin_b4", "sin_cos.rs", r"let b4 = ops\.splat\(" + F + r"\);"),
     P("pin_erf_p", "erf.rs", r"let p = ops\.splat\(" + F + r"\);"),
 ] + [P("pin_erf_a%d" % i, "erf.rs", r"let a%d = ops\.splat\(" % i + F + r"\);") for i in range(5)]
+
+# Coq-Interval computes with Coq's primitive 63-bit integers (Bignums on Uint63): the primitives and their
+# specification axioms are declared by the Coq standard library (DESIGN.md section 3 lists them as admissible)
+INT63_AXIOMS = (["Uint63." + n for n in
+                 "of_to_Z lsl_spec lsr_spec land_spec lor_spec lxor_spec add_spec sub_spec mul_spec mulc_spec div_spec mod_spec "
+                 "eqb_correct eqb_refl ltb_spec leb_spec compare_def_spec head0_spec tail0_spec addc_def_spec addcarryc_def_spec "
+                 "subc_def_spec subcarryc_def_spec diveucl_def_spec diveucl_21_spec addmuldiv_def_spec asr_spec".split()]
+                + ["PrimInt63." + n for n in
+                   "int lsl lsr land lor lxor asr add sub mul mulc div mod divs mods eqb ltb leb ltsb lesb addc addcarryc subc "
+                   "subcarryc diveucl diveucl_21 addmuldiv compare compares head0 tail0".split()])
+
+# documented accuracy bounds (the oracle of the sweeps), pinned from the crate's own doc/tests
+BOUND_PINS = [
+    P("pin_bound_exp_ulps", "exp.rs", r"const MAX_EXP_ERROR_ULPS: f32 = " + F + r";"),
+    P("pin_bound_sigmoid_ulps", "exp.rs", r"const MAX_SIGMOID_ERROR_ULPS: f32 = " + F + r";"),
+    P("pin_bound_tanh_ulps", "tanh.rs", r"const MAX_TANH_ERROR_ULPS: f32 = " + F + r";"),
+    P("pin_bound_erf_abs", "erf.rs", r"const MAX_EXPECTED_DIFF: f32 = " + F + r";"),
+    P("pin_bound_sin_abs", "sin_cos.rs", r"fn test_sin_exhaustive\(\).*?tolerance: Tolerance::Absolute\(" + F + r"\)"),
+    P("pin_bound_cos_abs", "sin_cos.rs", r"fn test_cos_exhaustive\(\).*?tolerance: Tolerance::Absolute\(" + F + r"\)"),
+]
+FN_NAMES = ["exp", "sigmoid", "tanh", "erf", "sin", "cos"]
+BOUND_OF = ["pin_bound_exp_ulps", "pin_bound_sigmoid_ulps", "pin_bound_tanh_ulps", "pin_bound_erf_abs", "pin_bound_sin_abs",
+            "pin_bound_cos_abs"]
+# tolerance on |sum(softmax) - 1|: a choice of this check (the crate documents none); the largest value
+# observed on the generators below is about 4e-7
+SOFTMAX_TOL = ("1", "100000")
+
+
+def read_pins():
+    vals = {}
+    for l in open(os.path.join(vf.COQ, GROUP, "Pins.v")):
+        m = re.match(r"Definition (\w+) : \(Z \* Z\)%type := \((-?\d+), (\d+)\)%Z\.", l)
+        if m:
+            vals[m.group(1)] = (int(m.group(2)), int(m.group(3)))
+    return vals
+
+
+def f32_bits(x):
+    import struct
+    return struct.unpack("<I", struct.pack("<f", x))[0]
+
+
+def bits_f32(b):
+    import struct
+    return struct.unpack("<f", struct.pack("<I", b & 0xFFFFFFFF))[0]
+
+
+def special_inputs(pins):
+    q = lambda n: pins[n][0] / pins[n][1]
+    base = [0x00000000, 0x80000000, 0x7f800000, 0xff800000, 0x7fc00000, 0xffc00000, 0x7f800001, 0x7fffffff,
+            0x00000001, 0x80000001, 0x007fffff, 0x807fffff, 0x00800000, 0x80800000, 0x7f7fffff, 0xff7fffff,
+            0x3f800000, 0xbf800000, 0x33800000, 0xb3800000]
+    near = []
+    for v in [q("pin_exp_overflow"), q("pin_exp_underflow"), 88.72284, -87.33655, -103.972, -126.5 * math.log(2) + 0.01,
+              q("pin_tanh_cutoff"), q("pin_tanh_tiny"), q("pin_tanh_small"), q("pin_sin_large"), math.pi, math.pi / 2, 2 * math.pi,
+              0.5 * math.log(2), 1.5 * math.log(2)]:
+        for s in (1.0, -1.0):
+            b = f32_bits(s * v)
+            near += [b - 1, b, b + 1]
+    return sorted(set(b & 0xFFFFFFFF for b in base + near))
+
+
+def split_per_isa(case):
+    """A sweep line yields one case with the worst input of every ISA; split it so that each ISA is judged (and
+    classified) on its own."""
+    m = re.match(r"\((CUlp|CAbs) (\d+) (\d+) (\d+) \[(.*)\]\)$", case["term"])
+    if not m:
+        return [case]
+    out = []
+    isa_names = ["generic", "avx2", "avx512"]
+    for w in re.findall(r"\{\|.*?\|\}", m.group(5)):
+        isa = int(re.search(r"w_isa := (\d+)", w).group(1))
+        name = isa_names[isa] if isa < 3 else "isa%d" % isa
+        c = dict(case)
+        c["term"] = "(%s %s %s %s [%s])" % (m.group(1), m.group(2), m.group(3), m.group(4), w)
+        c["tag"] = "%s-%s" % (case["tag"].split("|")[0], name)
+        c["isa"], c["fn"] = name, int(m.group(2))
+        c["x"] = int(re.search(r"w_x := (\d+)", w).group(1))
+        c["a"] = int(re.search(r"w_actual := (\d+)", w).group(1))
+        c["e"] = int(re.search(r"w_expected := (\d+)", w).group(1))
+        c["input"] = case["input"] + " #" + name
+        out.append(c)
+    return out
+
+
+def classify(case):
+    # F54 (known): Sin / Cos on the generic ISA (no fused multiply-add): the two-step range reduction rounds
+    # k * two_pi_lo, so for |x| >= 512 the absolute error reaches about 6.3e-7, above the documented 3e-7 / 5e-7.
+    # Only this class is matched: sin or cos, generic ISA, 512 <= |x| < LARGE_THRESHOLD, error below 1e-6.
+    if case.get("isa") == "generic" and case.get("fn") in (4, 5):
+        x, a, e = bits_f32(case["x"]), bits_f32(case["a"]), bits_f32(case["e"])
+        if 512.0 <= abs(x) < 48000.0 and abs(a - e) < 1e-6:
+            return "F54"
+    return None
+
+
+def main(ctx):
+    ctx.rule = ("per function (exp, sigmoid, tanh, erf, sin, cos) and per ISA available on this CPU: quick = 2^20 inputs, one per "
+                "sign/exponent/11-leading-mantissa-bit prefix with pseudo-random low bits; thorough = all 2^32 bit patterns; the input "
+                "with the largest distance to the documented reference is the case judged (exactly, from bit patterns) by the Coq oracle; "
+                "special values (NaN payloads, +-inf, +-0, subnormals, extremes and the neighbours of every pinned threshold) one case "
+                "each per ISA; softmax on seeded vectors of 8 styles, lengths 0..4*lanes+3 and long, in place and src->dst. "
+                "non-trivial = every case; distinct = distinct input line")
+    ctx.trusted += ["reference functions: Rust std f32::exp/tanh/sin/cos, 1/(1+exp(-x)) in f32, libm::erff (the references the "
+                    "crate's documentation and tests name); no formal model of libm exists",
+                    "Coq-Interval (floating-point interval arithmetic inside Coq, checked by the kernel via vm_compute)",
+                    "translator f32 literal -> exact rational: checks/C19.py:lit_conv",
+                    "the hook rten-simd/src/verif.rs to evaluate the kernels on a named ISA"]
+    ctx.audit(GROUP)
+    problems = ctx.pins(GROUP, PINS + BOUND_PINS)
+    failed = ctx.prove(GROUP, "Props_C19", THEOREMS, timeout=2400, extra_allowed=INT63_AXIOMS)
+    ok, out = ctx.make(GROUP, ["VecMathModel.vo"])
+    if not ok:
+        raise vf.CheckerBroken("VecMathModel.v does not compile: " + out[-500:])
+    pins = read_pins()
+    missing = [b for b in BOUND_OF if b not in pins]
+    if missing:
+        raise vf.CheckerBroken("documented accuracy bounds could not be read from the source: %s %s" % (missing, problems))
+    bindir = ctx.harness(GROUP, profile="release", bins=["c19"])
+    rc, out = ctx.run_bin(os.path.join(bindir, "c19"), ["isas"])
+    isas = out.split()
+    ctx.extra["isas"] = isas
+    if len(isas) < 3:
+        ctx.assumptions.append("this CPU offers only %s: the other ISAs were not exercised on this run" % isas)
+
+    lines = ctx.replay_inputs()
+    if lines:
+        lines = [l.split("#")[0].strip() for l in lines]
+    else:
+        lines = []
+        mode = "strat 20 %d" % ctx.seed if ctx.quick() else "all"
+        for f in range(6):
+            num, den = pins[BOUND_OF[f]]
+            lines.append("%s %d %d %d %s" % ("ulp" if f < 3 else "abs", f, num, den, mode))
+            if not ctx.quick():
+                lines.append("%s %d %d %d strat 20 %d" % ("ulp" if f < 3 else "abs", f, num, den, ctx.seed))
+        for f in range(6):
+            num, den = pins[BOUND_OF[f]]
+            for isa in isas:
+                for b in special_inputs(pins):
+                    lines.append("special %d %s %d %d %d %d" % (f, isa, 0 if f < 3 else 1, num, den, b))
+        rng = vf.SplitMix64(ctx.seed)
+        lanes = {"generic": 4, "avx2": 8, "avx512": 16}
+        for isa in isas:
+            w = lanes.get(isa, 4)
+            lens = list(range(0, 4 * w + 4)) + [100, 257, 1000, 4099]
+            for style in range(8):
+                for ln in (lens if style < 2 or not ctx.quick() else [0, 1, w - 1, w, w + 1, 2 * w + 3, 257]):
+                    lines.append("softmax %s %d %d %d %d %s %s" % (isa, rng.next() >> 20, ln, style, rng.below(2), SOFTMAX_TOL[0], SOFTMAX_TOL[1]))
+    raw = ctx.gen_exec(bindir, "c19", 0, inputs=lines, timeout=6000)
+    cases = []
+    summary = {}
+    for c in raw:
+        if "|" in c["tag"]:
+            parts = c["tag"].split("|")
+            summary[parts[0]] = {"worst_per_isa": parts[1], "preferred_isa_vs_f64_reference": parts[2]}
+        cases += split_per_isa(c)
+    ctx.extra["measured_max_distance"] = summary
+    ctx.exhaustive = (not ctx.quick()) and not ctx.replay_path
+    ctx.correspond("vecmath-accuracy", GROUP, REQ, cases, classify=classify, show="show", shard=400,
+                   fn_name="documented accuracy bounds (VecMath.VecMathModel oracles)")
+    if problems and not ctx.violations:
+        ctx.violation({"kind": "pin-broken", "problems": problems,
+                       "explain": "constants the theorems are stated over could not be re-extracted from the source"}, no_input=True)
+    if failed and not ctx.violations:
+        ctx.proof_broken(failed, "the ULP / absolute-error sweeps of this run (%s) on every ISA" % ("2^20 stratified inputs per function" if ctx.quick() else "all 2^32 inputs per function"))
